@@ -51,23 +51,26 @@ class C19(verif.Spec):
     harness = "proxy_harness"
     harness_link_lib = True
     timeout_per_case = 0.5
-    partial_note = ("Proved for the model of daemon/proxyd.c + src/proxy-msg.c (token fields by construction in Core.Reach; "
-                    "message validation, dispatch, teardown as functions of the model). The process level (sockets, select, "
-                    "malloc, the slicer queue buffers of C18, the acquisition thread, TCP) is covered by the correspondence run "
-                    "under ASan/UBSan and by the oracle only. no_fault is proved for handle_read/take_message/token machine "
-                    "separately; see Spec.open_statements for what is not closed over whole histories.")
+    partial_note = ("Proved for the hand-written model of daemon/proxyd.c + src/proxy-msg.c (lean/ZvbiModel/Proxy): token exclusivity, "
+                    "grants only to requesters, grant_only_after_return in the log form and no_fault hold for EVERY history of "
+                    "model inputs and every scheduler pick; the token fields by construction (Core.Reach), the rest by induction "
+                    "(LemmasLog, LemmasNF1-4). The guard flags of the model are read from the source. The process level (sockets, "
+                    "select, malloc, the slicer queue buffers / reference counts of C18, the acquisition thread, TCP) is covered by "
+                    "the correspondence run under ASan/UBSan, by the oracle and by the multi-process runtime stage only.")
     assumptions = ["POSIX stream sockets deliver bytes in order; a unix-domain connect() is accepted in FIFO order",
                    "the capture device grants services & supported, never raw services, and does not change while clients "
                    "are connected (io-v4l*.c are not part of the harness build)",
                    "single-threaded daemon (device with VBI_FD_HAS_SELECT); the acquisition-thread path is not exercised",
                    "a client's CHN_TOKEN_REQ counts as returning the token it held (src/proxy-client.c clears has_token when "
-                   "it sends one)"]
+                   "it sends one)",
+                   "errno after a recv() that returned 0 is pinned to EAGAIN in the harness (POSIX leaves it unspecified; "
+                   "vbi_proxy_msg_handle_read derives *pBlocked from it)"]
     trusted_base = ["translate/gen_proxy.py + lib/proxy_util.py (layout probe compiled against the tree; textual guard flags, "
                     "cross-checked by `sizes` and by the corpus replays on both sides)",
                     "harness/proxy_harness.c, harness/proxy_fakecap.h, lean/Driver/Proxy.lean (correspondence)",
-                    "the scheduler's comparison chain is validated by correspondence only (theorems hold for any pick)"]
-    open_statements = ["grant_only_after_return_full (log form; state form grant_when_others_none and the negation witness are proved)",
-                       "no_fault_full (pieces proved: index_fields_clamped, illegal_length_rejected, owner_assert_unreachable)"]
+                    "the scheduler's comparison chain (codePick) is tied to the C loop by correspondence; the safety theorems hold "
+                    "for any pick, the scheduler theorems are about codePick"]
+    open_statements = []
     stats = {}
     extra_coverage = {"guards_of_tree": G, "stats": stats}
     rule = ("cases from corpus + seeded generators: valid multi-client sessions (sender spec lib/proxy_util.Enc) and a fault stream "
@@ -154,6 +157,122 @@ class C19(verif.Spec):
                 ops += self.recv_all(nclients)
         ops += ["iter", "iter"] + self.recv_all(nclients)
         return ops
+
+    def burst_session(self, rng, nclients, rounds):
+        """valid multi-client run where SEVERAL events (messages of different clients, a frame from the device, a
+        disconnect, a half-close) fall into ONE select round: the daemon handles them in client-list order within one pass"""
+        ops = []
+        alive, half = [], set()
+        for i in range(nclients):
+            ops += ["connect 0", "iter"]
+            ops += [self.snd(i, E.connect(services=rng.choice([0x4, 0x4, 0x405, 0x400, 0]), strict=rng.choice([-1, 0, 1, 2]),
+                                         buffer_count=rng.choice([1, 5, 40]), flags=rng.choice([0, 0, 0, 2, 1]))), "iter", "iter"]
+            alive.append(i)
+        for _ in range(rounds):
+            if not alive:
+                break
+            k = rng.choice([1, 2, 2, 3, 3, 4])
+            who = rng.sample(alive, min(k, len(alive)))
+            ev = []
+            for c in who:
+                r = rng.random()
+                if r < 0.70:
+                    if rng.random() < 0.25:
+                        ev.append(self.snd(c, E.service(rng.choice([0, 0, 4, 0x400]), rng.choice([0, 1]), rng.choice([1, 1, 0]))))
+                    else:
+                        ev.append(self.snd(c, self.rand_msg(rng, None)))
+                elif r < 0.80:
+                    ev.append("shut %d" % c)
+                    alive.remove(c)
+                elif r < 0.90 and c not in half:
+                    ev.append("shutrd %d" % c)
+                    half.add(c)
+                else:
+                    ev.append("tick %d" % rng.choice([1, 3]))
+            if rng.random() < 0.5:
+                ev.append("frame 0 %s" % (",".join(str(rng.choice([4, 4, 8, 0x400, 1])) for _ in range(rng.randrange(0, 5))) or "-"))
+            if rng.random() < 0.15:
+                ev.append("alarm")
+            rng.shuffle(ev)
+            ops += ev + ["iter"] * rng.choice([1, 1, 2, 3])
+            if rng.random() < 0.4:
+                ops += self.recv_all(nclients)
+        ops += ["iter", "iter"] + self.recv_all(nclients)
+        return ops
+
+    def handover_cases(self, quick):
+        """directed, exhaustive over roles: three background clients; for EVERY assignment of the roles holder / waiter / third
+        to the positions in the client list and every order of their sub-priorities, the holder's action X and another
+        client's action Y arrive in ONE select round (the scheduler then runs twice within one pass over the list)"""
+        import itertools
+        cases = []
+        n = 0
+        for h, w, t in itertools.permutations(range(3)):
+            for sph, spw, spt in itertools.product([0x10, 0x30], repeat=3):
+                base = []
+                for i in range(3):
+                    base += ["connect 0", "iter", self.snd(i, E.connect(services=4)), "iter", "iter"]
+                base += [self.snd(h, E.token(BG, 1, sph, 2)), "iter", "iter"] + self.recv_all(3)
+                base += [self.snd(w, E.token(BG, 1, spw, 2)), "iter", "iter"] + self.recv_all(3)
+                X = {"release": [self.snd(h, E.notify(F_REL))], "return": [self.snd(h, E.notify(F_TOK))],
+                     "cnf": [self.snd(h, E.reclaim_cnf())], "shut": ["shut %d" % h], "shutrd": ["shutrd %d" % h],
+                     "again": [self.snd(h, E.token(BG, 1, sph, 2))], "withdraw": [self.snd(h, E.token(BG, 0, 0, 0))],
+                     "expire": ["tick 3", "alarm"], "none": []}
+                Y = {"third-asks": [self.snd(t, E.token(BG, 1, spt, 2))], "waiter-again": [self.snd(w, E.token(BG, 1, spw, 2))],
+                     "third-inter": [self.snd(t, E.token(INTER, 1, spt, 0))], "waiter-shut": ["shut %d" % w]}
+                for xn, x in X.items():
+                    for yn, y in Y.items():
+                        n += 1
+                        if quick and n % 2 != (h + sph // 16) % 2:
+                            continue
+                        c = list(base) + (x + y if n % 3 else y + x) + ["iter"] + self.recv_all(3) + ["iter", "iter"] + self.recv_all(3)
+                        if xn not in ("shut", "shutrd", "cnf"):
+                            c += [self.snd(h, E.reclaim_cnf()), "iter", "iter", "iter"] + self.recv_all(3)
+                        c += ["tick 3", "alarm", "iter", "iter", "iter"] + self.recv_all(3)
+                        cases.append(c)
+        return cases
+
+    def service_frame_cases(self):
+        """a frame from the device and a SERVICE_REQ become readable in the same select round (the frame is queued for the
+        client before its message is read), for every kind of service change incl. dropping the last service of the device"""
+        cases = []
+        for nc in (1, 2):
+            for reset in (0, 1):
+                for sv in (0, 4, 0x400, 0x404):
+                    for other in ((4, 0) if nc == 2 else (4,)):
+                        c = []
+                        for i in range(nc):
+                            c += ["connect 0", "iter", self.snd(i, E.connect(services=4 if i == 0 else other)), "iter", "iter"]
+                        for rnd in range(3):
+                            c += ["frame 0 4,400,4", "iter", "iter"]
+                            c += ["frame 0 4,4", self.snd(0, E.service(sv, 0, reset)), "iter", "iter"] + self.recv_all(nc)
+                            c += [self.snd(0, E.service(4, 0, 0)), "iter", "iter", "frame 0 4", "iter", "iter"] + self.recv_all(nc)
+                        cases.append(c)
+        return cases
+
+    def halfclose_cases(self):
+        """a client that stops reading (shutdown(SHUT_RD)): every send() to it fails hard (EPIPE) although nothing can be read
+        from it - for replies, indications, token messages and sliced data, next to two witnesses"""
+        cases = []
+        pre = ["connect 0", "iter", self.snd(0, E.connect(services=4)), "iter", "iter",
+               "connect 0", "iter", self.snd(1, E.connect(services=0x404)), "iter", "iter", "connect 0", "iter"]
+        con = [self.snd(2, E.connect(services=4)), "iter", "iter"]
+        tail = ["iter", "iter", "frame 0 4,400", "iter", "iter", "frame 0 4", "iter", "iter"] + self.recv_all(3)
+        shapes = [
+            ["shutrd 2", self.snd(2, E.connect(services=4)), "iter", "iter"],                       # reply to the connect request fails
+            con + ["shutrd 2", "frame 0 4,4,400", "iter", "iter"],                                   # sliced data to an idle client fails
+            con + ["shutrd 2", "frame 0 4", "frame 0 4", "iter", "iter", "iter"],
+            con + ["shutrd 2", self.snd(2, E.service(4, 0)), "iter", "iter"],
+            con + ["shutrd 2", self.snd(2, E.token(BG, 1, 0x20, 2)), "iter", "iter", "iter"],        # TOKEN_CNF fails, token must be freed
+            con + [self.snd(2, E.token(BG, 1, 0x20, 2)), "iter", "iter", "shutrd 2", self.snd(0, E.token(BG, 1, 0x40, 2)), "iter", "iter", "iter"],  # RECLAIM_REQ fails
+            con + ["shutrd 2", self.snd(0, E.notify(F_FLUSH)), "iter", "iter", "iter"],              # CHANGE_IND fails
+            con + ["shutrd 2", self.snd(0, E.notify(F_NORM, 525)), "frame 0 4", "iter", "iter", "iter"],
+            con + ["shutrd 2", "shut 2", "frame 0 4", "iter", "iter"],
+            con + ["shutrd 2", "frame 0 4", self.snd(2, E.close()), "iter", "iter"],
+        ]
+        for f in shapes:
+            cases.append(pre + f + tail)
+        return cases
 
     # ---------------------------------------------------------------------------------------------
     def token_alphabet_cases(self, quick):
@@ -321,6 +440,17 @@ class C19(verif.Spec):
             nc = rng.choice([1, 2, 3, 3, 4, 5])
             cases.append(self.session(rng, nc, rng.choice([6, 10, 20]) if quick else rng.choice([10, 30, 60]), two_dev=(i % 3 == 0)))
         self.bump("sessions", N)
+        # several events of different clients in one select round; directed hand-over / service / half-close shapes
+        N = (250 if quick else 6000)
+        for i in range(N):
+            cases.append(self.burst_session(rng, rng.choice([1, 2, 3, 3, 3, 4]), rng.choice([5, 8, 12]) if quick else rng.choice([10, 25])))
+        self.bump("burst_sessions", N)
+        n0 = len(cases)
+        cases += self.handover_cases(quick)
+        self.bump("handover", len(cases) - n0)
+        n0 = len(cases)
+        cases += self.service_frame_cases() + self.halfclose_cases()
+        self.bump("service_frame+halfclose", len(cases) - n0)
         # device variants
         for cfgl in ["dev 0 0x405 1 525 0", "dev 0 0 2 625 625", "dev 0 0xffffffff 0 625 625", "dev 0 0x4 2 625 -1", "dev 1 0x400 2 525 525"]:
             for _ in range(6 if quick else 40):
@@ -330,7 +460,7 @@ class C19(verif.Spec):
         cases.append(["connect 0"] * 9 + ["connect 1"] * 8 + ["iter"] * 12 + ["connect 0"] * 2)
         # malformed op lines
         bad = ["connect", "connect 2", "connect -1", "send 0", "send 0 zz", "send 0 abc", "send 99 00", "send -1 00", "shut 99", "recv 99", "recv x",
-               "tick", "tick -1", "tick 1000001", "maxconn 65", "dev 0 1 2 3", "dev 2 0 0 0 0", "frame 0", "frame 2 1", "frame 0 1,x", "iter 1",
+               "shutrd", "shutrd 99", "shutrd x", "tick", "tick -1", "tick 1000001", "maxconn 65", "dev 0 1 2 3", "dev 2 0 0 0 0", "frame 0", "frame 2 1", "frame 0 1,x", "iter 1",
                "alarm 2", "frob", "sizes 1", "frame 0 " + ",".join(["1"] * 32), "dev 0 4 2 625 625"]
         for _ in range(4 if quick else 30):
             c = ["connect 0", "iter"]
@@ -405,7 +535,7 @@ class C19(verif.Spec):
                     elif n == "CLOSE_REQ":
                         holds[c] = False
                         gone.add(c)
-            elif w[0] == "shut" and o == "ok":
+            elif w[0] in ("shut", "shutrd") and o == "ok":      # a client that stopped reading can act on nothing it is sent
                 try:
                     holds[int(w[1])] = False
                     gone.add(int(w[1]))
@@ -483,6 +613,8 @@ class C19(verif.Spec):
                    "two clients of a device have a token state: " + " ".join(sts)
         w = re.sub(r"c\d+:", "cN:", w)
         w = re.sub(r"\d+ outputs for \d+ ops", "N outputs for M ops", w)
+        w = re.sub(r"stopped after \d+ ops", "stopped after N ops", w)
+        w = re.sub(r"aborts at op \d+", "aborts at op N", w)
         w = re.sub(r"WRITE of size \d+", "WRITE", w)
         w = re.sub(r"on address \S+ at pc \S+ bp \S+ sp \S+", "", w)
         w = re.sub(r"\s+", " ", w).strip()
